@@ -132,7 +132,7 @@ Example C15_nonvacuous :
   get_cell_size (cfg_cell_size _ refute_cfg) (cfg_default_cell_size _ refute_cfg) refute_term = (8, 16) /\
   (0 < q_effective_scale refute_cfg None)%Q /\ one_auto None (Some 3) /\
   q_optimal_with true refute_cfg refute_term 1 1 None (Some 3) None (Some 1) None = Ok (2, 1) /\
-  q_optimal_with true refute_cfg refute_term 100 333 (Some 300) None None None (Some (1 # 2)%Q) = Ok (4, 1) /\
+  q_optimal_with true refute_cfg refute_term 100 333 (Some 300) None None None (Some (1 # 2)%Q) = Ok (15, 24) /\
   q_optimal_with true refute_cfg refute_term 100 333 None None None None None = Ok (13, 21).
 Proof.
   repeat split; try reflexivity. intros [X _]. discriminate X.
